@@ -44,7 +44,8 @@ stem_of = {}
 
 def malformed_nodes(rng, t, kind, j, index, same_as=None):
     base = t['rel']
-    nm = 'm%d' % j
+    nm = 'm%d' % j + rng.choice(['', '', '', '{backup}', '{0}', '%s', ' %(x)s',
+                                 '}{', '{', '$x'])
     ip = '%s/info/%s.trashinfo' % (base, nm)
     pp = '%s/files/%s' % (base, nm)
     pay = {'p': pp, 't': 'f', 'c': 'malformed-neighbour payload %d' % j}
